@@ -66,6 +66,8 @@ class Element(abc.MutableSequence):
         """
         self.name = name
         self.raw = raw
+        # False for a parsed element whose end tag is missing in the source
+        self.closed = True
         self.attrs: Attribute = Attribute(attr or {})
         self._parent: Element | None = None
         self._children: list[Element] = []
@@ -122,6 +124,7 @@ class Element(abc.MutableSequence):
     def deepcopy(self) -> Element:
         """Recursively copy and remove parent."""
         _copy = self.__class__(self.name, self.attrs, self.raw)
+        _copy.closed = self.closed
         for child in self:
             _copy_child = child.deepcopy()
             _copy.append(_copy_child)
@@ -143,6 +146,8 @@ class Element(abc.MutableSequence):
 
         :param tag_overrides: Provide a dictionary of render function
             for specific tag names, to override the normal render format
+        :param source_end_tags: If True, do not add the end tag of elements
+            that are not closed in the parsed source (the default is to add it)
 
         """
         raise NotImplementedError
@@ -233,12 +238,13 @@ class Tag(Element):
     ) -> str:
         if tag_overrides and self.name in tag_overrides:
             return tag_overrides[self.name](self, tag_overrides)
+        skip_end_tag = kwargs.get("source_end_tags") and not self.closed
         return (
             self._render_start()
             + "".join(
                 child.render(tag_overrides=tag_overrides, **kwargs) for child in self
             )
-            + f"</{self.name}>"
+            + ("" if skip_end_tag else f"</{self.name}>")
         )
 
 
@@ -347,6 +353,7 @@ class Tree:
         """
         pointer = self.stack.pop()
         item = Tag(name, attrs, raw)
+        item.closed = False
         pointer.append(item)
         self.stack.append(pointer)
         self.stack.append(item)
@@ -379,6 +386,7 @@ class Tree:
         for ind in reversed(self.stack):
             count = count + 1
             if ind.name == name:
+                ind.closed = True
                 break
         else:
             count = 0
